@@ -9,6 +9,7 @@
 
 mod bodyfx;
 mod corpus;
+mod dom;
 mod mon;
 mod prng;
 mod report;
